@@ -119,6 +119,12 @@ def alphabet(tier, expanded, extent_a):
     for x in sorted(extent_a)[:2 if tier == "quick" else 3]:
         ev.append(["drop", x])
     ev.append(["new_session"])
+    # the harvester object copied (as sowing a crop does with its farmer) or
+    # sent through pickle: the copy holds what the original held, including
+    # points that were harvested with sync=False
+    if not PRELOADED[0]:
+        ev.append(["copied", "deepcopy"])
+        ev.append(["copied", "pickle"])
     # a session that names the other engine for the same (explicit) file
     # name: it cannot read the data and must not touch it
     ev.append(["foreign"])
@@ -388,6 +394,15 @@ class World:
         elif kind == "new_session":
             self.h = self.new_harvester()
             m.mem = None
+        elif kind == "copied":
+            import copy
+
+            if ev[1] == "deepcopy":
+                self.h = copy.deepcopy(self.h)
+            else:
+                import cloudpickle
+
+                self.h = cloudpickle.loads(cloudpickle.dumps(self.h))
         elif kind == "foreign":
             if m.disk is None or "." not in self.cfg["name"]:
                 return vio
